@@ -69,8 +69,27 @@ class C05(Base):
         "once with write_adj_deps",
     ]
 
+    SWEEP = {"quick": (200, 24), "thorough": (400, 48)}
+    LARGE = {"quick": 0.03, "thorough": 0.06}
+
     def plan(self, rng, tier, idx):
         nmax, rfmax = self.SIZES[tier]
+        if idx < 3:
+            from ..driver import ListDriver
+            fn = ("optimal_steps_binomial", "n_advance:maximum",
+                  "n_advance:revolve")[idx]
+            nm, sm = self.SWEEP[tier]
+            if idx:
+                nm, sm = 2 * nm, 2 * sm
+            return ListDriver([["sweep", fn, nm, sm]])
+        if rng.random() < self.LARGE[tier]:
+            N = rng.randint(80, 400)
+            s = rng.randint(2, 30)
+            r = rng.randint(0, s)
+            cfg = {"cls": "Multistage", "N": N,
+                   "p": {"r": r, "d": s - r,
+                         "traj": rng.choice(("maximum", "revolve"))}}
+            return Plan([(cfg, 1, "every")])
         others, calls = _cotenants(rng, nmax)
         if rng.random() < 0.7:
             N = draw_N(rng, nmax, small=10)
@@ -127,20 +146,35 @@ class C05(Base):
                 self.own(w, "steps_below_optimum", s,
                          f"{got} forward steps executed, fewer than the "
                          f"binomial optimum {exp} for N={s.N}, s={units}")
+        nbad = 0
         for op, out in w.calls:
-            if op[1] != "optimal_steps_binomial":
+            if op[1] != "optimal_steps_binomial" and \
+                    not op[1].startswith("n_advance:"):
                 continue
             n, sn = op[2], op[3]
             if n > 1 and sn < 1:
                 continue
             exp = O.binomial_total(n, max(sn, 1)) if n > 1 else 1
             if out != ["val", exp]:
+                nbad += 1
+                if nbad > 3:
+                    continue
+                if op[1].startswith("n_advance:"):
+                    w.violation(self.ID, "n_advance_not_optimal", None,
+                                f"the binomial recursion built from "
+                                f"n_advance(trajectory={op[1][10:]!r}) takes "
+                                f"{out} forward steps for n={n}, s={sn}; "
+                                f"the optimum is {exp}")
+                    w.viol[-1]["cls"] = "n_advance"
+                    continue
                 w.violation(self.ID, "helper_mismatch", None,
                             f"optimal_steps_binomial({n}, {sn}) returned "
                             f"{out}, the optimum is {exp}")
                 w.viol[-1]["cls"] = "optimal_steps_binomial"
 
     def nontrivial(self, w):
+        if w.probes.get("helper_sweep_entries", 0) > 0:
+            return True
         for s in w.all_slots():
             if s.cls in ("Multistage", "Revolve") and s.N >= 3:
                 p = s.cfg["p"]
@@ -172,13 +206,25 @@ class C06(Base):
         "the tabulated planner is exercised as plain Python (numba absent)",
     ]
 
+    SWEEP = {"quick": (320, 32), "thorough": (500, 64)}
+    LARGE = {"quick": 0.0, "thorough": 0.12}
+
     def plan(self, rng, tier, idx):
         nmax, _ = self.SIZES[tier]
+        if idx == 0:
+            from ..driver import ListDriver
+            return ListDriver([["sweep", "mixed_step_memoization",
+                                *self.SWEEP[tier]]])
         others, calls = _cotenants(rng, nmax)
         N = draw_N(rng, nmax, small=10)
         s = draw_units(rng, N, 1 if N > 1 else 0)
         if rng.random() < 0.5:
             s = rng.randint(1, max(1, min(N, 8)))
+        if rng.random() < self.LARGE[tier]:
+            # large stratum: many steps, a moderate number of units
+            N = rng.randint(100, 320)
+            s = rng.randint(4, 28)
+            others = []
         a = ({"cls": "Mixed", "N": N, "p": {"s": s, "storage": "RAM"}}, 1,
              "every")
         b = ({"cls": "Mixed", "N": N, "p": {"s": s, "storage": "DISK"}}, 1,
@@ -218,24 +264,35 @@ class C06(Base):
                          f"{s.cfg['p']['storage']} but {got[key][0]} with "
                          f"{got[key][1]}")
             got[key] = (n, s.cfg["p"]["storage"])
+        nbad = 0
         for op, out in w.calls:
-            if op[1] != "optimal_steps_mixed":
+            if op[1] not in ("optimal_steps_mixed", "mixed_step_memoization"):
                 continue
             n, sn = op[2], op[3]
             if n > 1 and sn < 1:
                 continue
             exp = O.mixed_total(n, max(sn, 1)) if n > 1 else 1
-            if out != ["val", exp]:
-                w.violation(self.ID, "helper_mismatch", None,
-                            f"optimal_steps_mixed({n}, {sn}) returned {out}, "
+            got = out
+            if op[1] == "mixed_step_memoization" and out[0] == "val" and \
+                    isinstance(out[1], list):
+                got = ["val", out[1][2]]
+            if got != ["val", exp]:
+                nbad += 1
+                if nbad > 3:
+                    continue
+                w.violation(self.ID, "planner_cost_not_optimal"
+                            if op[1] == "mixed_step_memoization"
+                            else "helper_mismatch", None,
+                            f"{op[1]}({n}, {sn}) returned {out}, "
                             f"the optimum is {exp}")
-                w.viol[-1]["cls"] = "optimal_steps_mixed"
+                w.viol[-1]["cls"] = op[1]
         if w.planner == "tabulated":
             w.probe("tabulated_planner_ran")
 
     def nontrivial(self, w):
-        return any(s.cls == "Mixed" and s.N > s.cfg["p"]["s"] + 1
-                   and _single_pass_done(s) for s in w.all_slots())
+        return w.probes.get("helper_sweep_entries", 0) > 0 or any(
+            s.cls == "Mixed" and s.N > s.cfg["p"]["s"] + 1
+            and _single_pass_done(s) for s in w.all_slots())
 
 
 # ---------------------------------------------------------------------------
